@@ -120,7 +120,7 @@ class EngineListener:
         if "C07" in self.checks and status == PROP_ENTAILMENT:
             box = [[int(a), int(b)] for a, b in after]
             if any(a > b for a, b in box):
-                self.viol("C07", "entailed-empty-box", f"{alg}{params} answered entailed with an empty domain {box}")
+                pass  # an empty box has no tuple: vacuously fine (whoever produced the empty domain is at fault)
             elif R.space_size(box) <= self.cap:
                 self.probes["entailed_answers_checked"] += 1
                 pred = R.PREDICATES[alg]
@@ -226,7 +226,8 @@ class EngineListener:
     def quiescent_checks(self, entry, box_arr, flags_arr, status, where):
         box = [[int(a), int(b)] for a, b in box_arr]
         flags = [bool(x) for x in flags_arr]
-        if "C08" in self.checks:
+        entry_ok = all(int(a) <= int(b) for a, b in entry)  # an empty entry domain is the caller's fault
+        if "C08" in self.checks and entry_ok:
             for d, ((lo, hi), (elo, ehi)) in enumerate(zip(box, entry)):
                 if lo > hi:
                     self.viol("C08", "empty-domain-reported-consistent", f"{where}: domain {d} is empty [{lo},{hi}]")
@@ -243,6 +244,37 @@ class EngineListener:
                         continue
                     alg = self.m["props"][k][1]
                     st, res = self.shadow_exec(k, box)
+                    if alg == "no_sub_cycle":
+                        # by design it reacts only to instantiation: its verdict on the instantiated variables is
+                        # judged by the reference semantics; a failure that only arises through its own pruning of
+                        # non-instantiated variables is a different (recorded) class
+                        vs = self.m["props"][k][0]
+                        closed = closed_sub_cycle(
+                            [
+                                (box[self.m["idx"][v]][0] + self.m["off"][v])
+                                if box[self.m["idx"][v]][0] == box[self.m["idx"][v]][1]
+                                else None
+                                for v in vs
+                            ]
+                        )
+                        if closed:
+                            self.viol(
+                                "C08",
+                                "sub-cycle-among-instantiated",
+                                f"{where}: pass reported {'solved' if status == 2 else 'consistent'} on {box} but the "
+                                f"instantiated successors of constraint #{k} close the sub-cycle {closed}",
+                            )
+                        elif st == PROP_INCONSISTENCY or any(lo > hi for lo, hi in res.values()):
+                            self.probes["sub_cycle_cascade_failure"] += 1
+                            self.viol(
+                                "C08",
+                                "sub-cycle-reexecution-fails-by-cascade",
+                                f"{where}: pass reported {'solved' if status == 2 else 'consistent'} on {box}; "
+                                f"re-executing no_sub_cycle #{k} prunes non-instantiated successors and thereby fails "
+                                f"(it is not woken by bound changes)",
+                            )
+                        self.probes["shadow_reexecutions"] += 1
+                        continue
                     if st == PROP_INCONSISTENCY or any(lo > hi for lo, hi in res.values()):
                         self.viol(
                             "C08",
@@ -474,6 +506,27 @@ class EngineListener:
                     if not all(flags):
                         self.probes["backtrack_with_disabled_flags"] += 1
         return ok
+
+
+def closed_sub_cycle(succ):
+    """succ[i] = successor of i or None.  Returns a closed cycle of length < n among the instantiated ones."""
+    n = len(succ)
+    for s in range(n):
+        cur = s
+        path = [s]
+        for _ in range(n):
+            nxt = succ[cur]
+            if nxt is None or nxt < 0 or nxt >= n:
+                break
+            if nxt == s:
+                if len(path) < n:
+                    return path
+                break
+            if nxt in path:
+                break
+            path.append(nxt)
+            cur = nxt
+    return None
 
 
 def quiet_bc(a):
